@@ -410,6 +410,15 @@ def poc_frechet_direct_path(force, ret_details=False):
     contact point. For shorter baselines, the contact point will
     be closer to the point of maximum indentation.
     """
+    if len(force) == 0:
+        # Nothing to analyze (e.g. constant or monotonically decreasing
+        # force: the clipped approach part is empty). Returning nan
+        # triggers the fallback in `compute_poc`.
+        if ret_details:
+            return np.nan, {"norm": "force-rotated"}
+        else:
+            return np.nan
+
     x = np.linspace(0, 1, len(force), endpoint=True)
     y = (force - force.min()) / (force.max() - force.min())
 
